@@ -63,6 +63,18 @@ def rule_accessor(prog: Program) -> List[Instance]:
                 out.append(Instance("R-ACCESSOR", cid, OK if key == pname else BAD, f"reads key \"{key}\"", m.where()))
                 continue
             keyc = next((a.value for x in ast.walk(rv) if isinstance(x, ast.Call) for a in x.args[:1] if isinstance(a, ast.Constant) and isinstance(a.value, str)), None)
+            # a configured value must be reported as configured: `cfg.get(k) or default` turns an explicit 0 into the default
+            bodies = [rv]
+            for x in ast.walk(rv):
+                if isinstance(x, ast.Call) and isinstance(x.func, ast.Attribute) and isinstance(x.func.value, ast.Name) and x.func.value.id == "self":
+                    h = ci.find_method(x.func.attr)
+                    if h is not None:
+                        bodies.extend(r.value for r in walk_own(h.node) if isinstance(r, ast.Return) and r.value is not None)
+            filt = next((b for e in bodies for b in ast.walk(e) if isinstance(b, ast.BoolOp) and isinstance(b.op, ast.Or)
+                         and any(isinstance(c, ast.Call) and isinstance(c.func, ast.Attribute) and c.func.attr == "get" or isinstance(c, ast.Subscript) for c in ast.walk(b.values[0]))), None)
+            if filt is not None:
+                out.append(Instance("R-ACCESSOR", cid, BAD, f"`{short(filt, 70)}` filters the configured value by truth: a limit configured as 0 is reported as the default", m.where()))
+                continue
             if keyc is not None:
                 out.append(Instance("R-ACCESSOR", cid, OK if keyc == pname else BAD,
                                     f"looks up its own key \"{keyc}\"" if keyc == pname else f"property `{pname}` looks up key \"{keyc}\"", m.where()))
